@@ -18,8 +18,16 @@ else
   git -C /repo apply /verif/seeded/$ID/patch.diff || exit 2
   trap 'git -C /repo checkout -- .' EXIT
 fi
+# SNAP=1: run from a snapshot of /verif taken now (under /tmp, removed afterwards), so that edits
+# made to the harness while a long matrix is running do not break its worker builds
+V=/verif
+if [ -n "$SNAP" ]; then
+  V=/tmp/verif-snap-$ID-$$
+  mkdir -p $V && rsync -a --exclude evidence --exclude seeded --exclude replays --exclude .git /verif/ $V/
+  trap 'rm -rf '$V'; [ -n "$TREE" ] && git -C /repo worktree remove --force /tmp/mutant-tree-'$ID' 2>/dev/null; [ -z "$TREE" ] && git -C /repo checkout -- .' EXIT
+fi
 for P in "$@"; do
-  /verif/check.sh $P $TIER > /tmp/mutant-$ID-$P.out 2>&1; RC=$?
+  $V/check.sh $P $TIER > /tmp/mutant-$ID-$P.out 2>&1; RC=$?
   echo "seeded=$ID check=$P tier=$TIER exit=$RC violations=$(grep -ac '^VIOLATION' /tmp/mutant-$ID-$P.out)"
   grep -a '^VIOLATION' /tmp/mutant-$ID-$P.out | head -4
   tail -1 /tmp/mutant-$ID-$P.out
